@@ -14,6 +14,11 @@ QNAME = {"Aggregation": "asyncClient_processAggregationResponseQueue", "Extend":
 
 
 def run(prog, chk):
+    v1_exclusive(prog, chk)
+    _run(prog, chk)
+
+
+def _run(prog, chk):
     chk.explanation = (
         "(R1/R8) the payload extractors of response PDUs (get Response / ConfResponse) are called only (a) by the MAC computation itself "
         "and the PDU's own accessors and (b) at sites every path to which passes 'header != NULL', 'hmac != NULL' and a successful "
@@ -318,3 +323,41 @@ def run(prog, chk):
         mac = [e for e in T[name]["entries"] if e["tag"] == 0x1f]
         ok = len(hdr) == 1 and len(mac) == 1 and "FIRST" in hdr[0]["flags"] and "LAST" in mac[0]["flags"] and mac[0]["parser"] == "KSI_DataHash_fromTlv"
         chk.ob("C06.template", name, ok, "header (0x01) is FIRST and the MAC (0x1f, an imprint) is LAST", loc="src/ksi/tlv_template.c:%d" % T[name]["line"], key=name)
+
+
+def v1_exclusive(prog, chk):
+    """The v1 MAC is computed over header + whichever of request / response / error is present (pdu_calculateHmac takes the first
+    one it finds): that is an authentication of the response only if a v1 PDU cannot carry two of them.  Decided from the v1
+    templates (all three share one at-most-one group) and from the template interpreter itself (scenario with the real flag)."""
+    from ksirules.schema import read_templates
+    from .C10 import template_scenario
+    chk.rule("C06.v1excl", "a v1 PDU carries exactly one of request / response / error, so the MAC input is the element that is delivered", floor=4)
+    T = read_templates(prog)
+    FMT = prog.const("KSI_INVALID_FORMAT")
+    from ksirules.schema import FLAGS
+    F = {v: k for k, v in FLAGS.items()}
+    for name, tags in (("KSI_AggregationPdu_template", (0x201, 0x202, 0x203)), ("KSI_ExtendPdu_template", (0x301, 0x302, 0x303))):
+        if name not in T:
+            raise AnalysisBroken("template %s not found" % name)
+        ent = {e["tag"]: e for e in T[name]["entries"]}
+        groups = [sorted(f for f in ent.get(t, {"flags": []})["flags"] if f.startswith("MOST_ONE")) for t in tags]
+        ok = all(t in ent for t in tags) and groups[0] and all(g == groups[0] for g in groups)
+        chk.ob("C06.v1excl", name, ok, "request / response / error elements %s share the at-most-one group %s" % ([hex(t) for t in tags], groups),
+               loc="src/ksi/tlv_template.c:%d" % T[name]["line"], key=name)
+        if not ok:
+            continue
+        fl = 0
+        for f in ent[tags[0]]["flags"]:
+            fl |= F[f]
+        tmpl = [(0x01, 0, 0)] + [(t, fl, 0) for t in tags] + [(0x1f, 0, 0)]
+        for seq_name, seq, want in (("request+response", [(0x01, 0), (tags[0], 0), (tags[1], 0), (0x1f, 0)], FMT),
+                                    ("response+error", [(0x01, 0), (tags[1], 0), (tags[2], 0), (0x1f, 0)], FMT),
+                                    ("response alone", [(0x01, 0), (tags[1], 0), (0x1f, 0)], 0)):
+            paths = template_scenario(prog, tmpl, seq)
+            chk.paths += len(paths)
+            if len(paths) != 1 or paths[0].undetermined or paths[0].reason != "exit":
+                raise AnalysisBroken("extractGenerator: evaluation not determined for %s %s" % (name, seq_name))
+            r = paths[0].ret
+            chk.ob("C06.v1excl", "%s[%s]" % (name, seq_name), r == want,
+                   "a v1 PDU with %s parsed by the template interpreter with this template's flags: expected %s, source returns %s"
+                   % (seq_name, hex(want), hex(r) if isinstance(r, int) else r), loc="src/ksi/tlv_template.c:%d" % T[name]["line"])
